@@ -1207,6 +1207,7 @@ static int parse_container(struct scanner_s *scanner, cif_container_tp *containe
                 }
                 /* recover by pushing back the colon */
                 scanner->next_char -= 1;
+                POSN_INCCOLUMN(scanner, -1);
                 scanner->ttype = alt_ttype;  /* TVALUE or QVALUE */
 
                 /* notify the configured whitespace callback, if any, of zero-length whitespace */
@@ -1308,6 +1309,7 @@ static int parse_item(struct scanner_s *scanner, cif_container_tp *container, UC
                 }
                 /* recover by pushing back the colon */
                 scanner->next_char -= 1;
+                POSN_INCCOLUMN(scanner, -1);
                 scanner->ttype = alt_ttype;  /* TVALUE or QVALUE */
 
                 /* notify the configured whitespace callback, if any, of zero-length whitespace */
@@ -1640,6 +1642,7 @@ static int parse_loop_packets(struct scanner_s *scanner, cif_loop_tp *loop, stri
                             }
                             /* recover by pushing back the colon */
                             scanner->next_char -= 1;
+                            POSN_INCCOLUMN(scanner, -1);
                             scanner->ttype = alt_ttype;  /* TVALUE or QVALUE */
 
                             /* notify the configured whitespace callback, if any, of zero-length whitespace */
@@ -1848,6 +1851,7 @@ static int parse_list(struct scanner_s *scanner, cif_value_tp **listp) {
                 }
                 /* recover by pushing back the colon */
                 scanner->next_char -= 1;
+                POSN_INCCOLUMN(scanner, -1);
                 scanner->ttype = alt_ttype;  /* TVALUE or QVALUE */
 
                 /* notify the configured whitespace callback, if any, of zero-length whitespace */
@@ -2556,6 +2560,7 @@ static int next_token(struct scanner_s *scanner) {
                                  * always whitespace
                                  */
                                 scanner->next_char += 1;
+                                POSN_INCCOLUMN(scanner, 1);
                                 ttype = KEY;
                                 break;
                             }
@@ -2580,6 +2585,7 @@ static int next_token(struct scanner_s *scanner) {
                                 if (c == UCHAR_COLON) {
                                     /* Not diagnosed as an error _here_ */
                                     scanner->next_char += 1;
+                                    POSN_INCCOLUMN(scanner, 1);
                                     ttype = TKEY;
                                 }
                             } else if (result == CIF_EOF) {
